@@ -16,6 +16,8 @@ package mapping
 // decoded tree (fs = WithStringValues+WithOpaqueKeys, fa = WithFromArray: the form/path unmarshalers of rest/httpx).
 
 import (
+	"bytes"
+	"encoding/json"
 	"fmt"
 	"math"
 	"net/textproto"
@@ -26,6 +28,7 @@ import (
 	"testing"
 
 	"github.com/zeromicro/go-zero/core/jsonx"
+	"github.com/zeromicro/go-zero/internal/encoding"
 	"github.com/zeromicro/go-zero/internal/verifh"
 )
 
@@ -280,8 +283,238 @@ func c08Class(err error) string {
 	return "other:" + strings.ReplaceAll(s, " ", "_")
 }
 
+// c08Tree reads the input tokens into a Go tree (numbers keep their literal text).
+type c08Num string
+
+func (p *c08Parser) parseTree() any {
+	t := p.next()
+	switch {
+	case t == "{":
+		m := map[string]any{}
+		var keys []string
+		for p.peek() != "}" {
+			k := p.next()
+			if _, dup := m[k]; !dup {
+				keys = append(keys, k)
+			}
+			m[k] = p.parseTree()
+		}
+		p.next()
+		return c08Obj{keys: keys, m: m}
+	case t == "[":
+		l := []any{}
+		for p.peek() != "]" {
+			l = append(l, p.parseTree())
+		}
+		p.next()
+		return l
+	case t == "null":
+		return nil
+	case t == "true":
+		return true
+	case t == "false":
+		return false
+	case strings.HasPrefix(t, "n:"):
+		if !c08ValidJSONNumber(t[2:]) {
+			panic("c08: not a JSON number " + t)
+		}
+		return c08Num(t[2:])
+	case strings.HasPrefix(t, "s:"):
+		return t[2:]
+	}
+	panic("c08: bad input token " + t)
+}
+
+type c08Obj struct {
+	keys []string
+	m    map[string]any
+}
+
+// c08Yaml renders the tree as block-style YAML (strings and keys double-quoted, numbers with their literal text).
+func c08Yaml(sb *strings.Builder, v any, indent string, inline bool) {
+	switch x := v.(type) {
+	case c08Obj:
+		if len(x.keys) == 0 {
+			sb.WriteString(" {}\n")
+			return
+		}
+		if !inline {
+			sb.WriteString("\n")
+		}
+		for i, k := range x.keys {
+			if !(inline && i == 0) {
+				sb.WriteString(indent)
+			}
+			sb.WriteString(strconv.Quote(k) + ":")
+			c08Yaml(sb, x.m[k], indent+"  ", false)
+		}
+	case []any:
+		if len(x) == 0 {
+			sb.WriteString(" []\n")
+			return
+		}
+		if !inline {
+			sb.WriteString("\n")
+		}
+		for i, e := range x {
+			if !(inline && i == 0) {
+				sb.WriteString(indent)
+			}
+			sb.WriteString("- ")
+			switch e.(type) {
+			case c08Obj, []any:
+				c08Yaml(sb, e, indent+"  ", true)
+			default:
+				c08Yaml(sb, e, indent+"  ", true)
+			}
+		}
+	case nil:
+		if inline {
+			sb.WriteString("null\n")
+		} else {
+			sb.WriteString(" null\n")
+		}
+	case bool:
+		if inline {
+			fmt.Fprintf(sb, "%v\n", x)
+		} else {
+			fmt.Fprintf(sb, " %v\n", x)
+		}
+	case c08Num:
+		if inline {
+			sb.WriteString(string(x) + "\n")
+		} else {
+			sb.WriteString(" " + string(x) + "\n")
+		}
+	case string:
+		if inline {
+			sb.WriteString(strconv.Quote(x) + "\n")
+		} else {
+			sb.WriteString(" " + strconv.Quote(x) + "\n")
+		}
+	}
+}
+
+// c08Toml renders the tree as TOML: top-level `key = value` lines, nested objects as inline tables; ok = false when the
+// document cannot be written in TOML (null, a top level that is not an object).
+func c08TomlValue(sb *strings.Builder, v any) bool {
+	switch x := v.(type) {
+	case c08Obj:
+		sb.WriteString("{")
+		for i, k := range x.keys {
+			if i > 0 {
+				sb.WriteString(", ")
+			}
+			sb.WriteString(strconv.Quote(k) + " = ")
+			if !c08TomlValue(sb, x.m[k]) {
+				return false
+			}
+		}
+		sb.WriteString("}")
+	case []any:
+		sb.WriteString("[")
+		for i, e := range x {
+			if i > 0 {
+				sb.WriteString(", ")
+			}
+			if !c08TomlValue(sb, e) {
+				return false
+			}
+		}
+		sb.WriteString("]")
+	case nil:
+		return false
+	case bool:
+		fmt.Fprintf(sb, "%v", x)
+	case c08Num:
+		sb.WriteString(string(x))
+	case string:
+		sb.WriteString(strconv.Quote(x))
+	}
+	return true
+}
+
+func c08Toml(v any) (string, bool) {
+	o, ok := v.(c08Obj)
+	if !ok {
+		return "", false
+	}
+	var sb strings.Builder
+	for _, k := range o.keys {
+		sb.WriteString(strconv.Quote(k) + " = ")
+		if !c08TomlValue(&sb, o.m[k]) {
+			return "", false
+		}
+		sb.WriteString("\n")
+	}
+	return sb.String(), true
+}
+
+// c08JSONTokens prints a decoded JSON document (json.Number for numbers) as input tokens, object keys sorted.
+func c08JSONTokens(sb *strings.Builder, v any) bool {
+	switch x := v.(type) {
+	case map[string]any:
+		sb.WriteString(" {")
+		keys := make([]string, 0, len(x))
+		for k := range x {
+			keys = append(keys, k)
+		}
+		sort.Strings(keys)
+		for _, k := range keys {
+			if k == "" || strings.ContainsAny(k, " \t\n") {
+				return false
+			}
+			sb.WriteString(" " + k)
+			if !c08JSONTokens(sb, x[k]) {
+				return false
+			}
+		}
+		sb.WriteString(" }")
+	case []any:
+		sb.WriteString(" [")
+		for _, e := range x {
+			if !c08JSONTokens(sb, e) {
+				return false
+			}
+		}
+		sb.WriteString(" ]")
+	case nil:
+		sb.WriteString(" null")
+	case bool:
+		fmt.Fprintf(sb, " %v", x)
+	case json.Number:
+		sb.WriteString(" n:" + string(x))
+	case string:
+		if strings.ContainsAny(x, " \t\n") {
+			return false
+		}
+		sb.WriteString(" s:" + x)
+	default:
+		return false
+	}
+	return true
+}
+
+func c08DocTokens(b []byte) (string, bool) {
+	dec := json.NewDecoder(bytes.NewReader(b))
+	dec.UseNumber()
+	var v any
+	if err := dec.Decode(&v); err != nil {
+		return "", false
+	}
+	var sb strings.Builder
+	if !c08JSONTokens(&sb, v) {
+		return "", false
+	}
+	return strings.TrimSpace(sb.String()), true
+}
+
+// op[0]: u = JSON text / decoded tree (see the header); uy / ut = the same document written as YAML / TOML through
+// UnmarshalYamlBytes / UnmarshalTomlBytes (fs=1: WithStringValues handed on as an option).  For uy / ut the observation
+// is `D <the JSON document the front end produced, as tokens | none> R <result>`: the converted document is a value the
+// real code computes itself (encoding.YamlToJson / TomlToJson) and is observed, the model runs on it.
 func c08Exec(op []string) string {
-	if len(op) < 6 || op[0] != "u" {
+	if len(op) < 6 || (op[0] != "u" && op[0] != "uy" && op[0] != "ut") {
 		return "bad-op"
 	}
 	cfg := verifh.ParseCfg(strings.Join(op[1:4], " "))
@@ -294,16 +527,64 @@ func c08Exec(op []string) string {
 	if p.next() != "I" {
 		return "bad-op"
 	}
-	var sb strings.Builder
-	p.parseInput(&sb)
-	if p.pos != len(p.toks) {
-		return "bad-op"
-	}
 	if ty.Kind() != reflect.Struct {
 		return "bad-op"
 	}
 	target := reflect.New(ty)
 	var err error
+	prefix := ""
+	if op[0] == "uy" || op[0] == "ut" {
+		if key != "json" || cfg.Int("fa", 0) != 0 {
+			return "bad-op"
+		}
+		tree := p.parseTree()
+		if p.pos != len(p.toks) {
+			return "bad-op"
+		}
+		var text string
+		var conv []byte
+		var cerr error
+		if op[0] == "uy" {
+			var sb strings.Builder
+			c08Yaml(&sb, tree, "", true)
+			text = sb.String()
+			conv, cerr = encoding.YamlToJson([]byte(text))
+		} else {
+			var ok bool
+			if text, ok = c08Toml(tree); !ok {
+				return "bad-op"
+			}
+			conv, cerr = encoding.TomlToJson([]byte(text))
+		}
+		prefix = "D none R "
+		if cerr == nil {
+			toks, ok := c08DocTokens(conv)
+			if !ok {
+				return "bad-op"
+			}
+			prefix = "D " + toks + " R "
+		}
+		var opts []UnmarshalOption
+		if cfg.Int("fs", 0) == 1 {
+			opts = append(opts, WithStringValues())
+		}
+		if op[0] == "uy" {
+			err = UnmarshalYamlBytes([]byte(text), target.Interface(), opts...)
+		} else {
+			err = UnmarshalTomlBytes([]byte(text), target.Interface(), opts...)
+		}
+		if cerr != nil {
+			if err == nil {
+				return prefix + "ok-although-conversion-failed"
+			}
+			return prefix + "err convert"
+		}
+	} else {
+	var sb strings.Builder
+	p.parseInput(&sb)
+	if p.pos != len(p.toks) {
+		return "bad-op"
+	}
 	if key == "json" && cfg.Int("fs", 0) == 0 && cfg.Int("fa", 0) == 0 {
 		err = UnmarshalJsonBytes([]byte(sb.String()), target.Interface())
 	} else {
@@ -342,11 +623,12 @@ func c08Exec(op []string) string {
 		}
 		err = NewUnmarshaler(key, opts...).Unmarshal(tree, target.Interface())
 	}
+	}
 	if err != nil {
-		return "err " + c08Class(err)
+		return prefix + "err " + c08Class(err)
 	}
 	var out strings.Builder
-	out.WriteString("ok")
+	out.WriteString(prefix + "ok")
 	c08Dump(&out, target.Elem())
 	return out.String()
 }
@@ -941,7 +1223,15 @@ func c08Gen(r *verifh.Rng) []verifh.Section {
 				if r.Chance(1, 60) {
 					in = r.PickS("[ ]", "n:1", "null", "s:x", "{ }")
 				}
-				ops = append(ops, "u "+cfg+" T"+tb.String()+" I "+in)
+				head := "u"
+				if cfg == "key=json fs=0 fa=0" && r.Chance(1, 4) {
+					// the same document through the YAML / TOML front ends (TOML cannot write null)
+					head = r.PickS("uy", "ut")
+					if head == "ut" && (strings.Contains(in, "null") || !strings.HasPrefix(in, "{")) {
+						head = "uy"
+					}
+				}
+				ops = append(ops, head+" "+cfg+" T"+tb.String()+" I "+in)
 			}
 		}
 		secs = append(secs, verifh.Section{Cfg: fmt.Sprintf("i=%d", i), Ops: ops})
